@@ -24,7 +24,7 @@ func main() {
 	dbreplay.Post = func() {
 		replicaRetention(rep, args.Seed)
 		// failure paths (spec/Faults.tla): the log stays one chain when a call of a commit / an apply / a snapshot fails
-		faults.Run(rep, args, faults.Select{Ops: []string{"rb_commit", "wal_commit", "import", "replica_apply", "replica_snapshot"}, Monitors: []string{"chain", "replica-chain"}})
+		faults.Run(rep, args, faults.Select{Ops: []string{"rb_commit", "wal_commit", "import", "replica_apply", "replica_snapshot"}, Monitors: []string{"chain", "replica-chain"}, Kinds: faults.LocalKinds})
 		t3.Stage(rep, args, map[string]bool{"C09": true})
 	}
 	// replicated applies, snapshots, restarts and drops: the cluster scripts with this property's monitors
